@@ -29,6 +29,12 @@ func c06case(c GCase, a *run.Acc, variant int) {
 	vdesc := fmt.Sprintf("named=%v nameSeqs=%v explicitEnd=%v filesBefore=%v", o.Named, o.NameSeqs, o.ExplicitEnd, o.Before)
 	d := c.Describe()
 	d["variant"] = vdesc
+	if r.CtxErrWentBack != "" {
+		d["observed"] = r.CtxErrWentBack
+		a.Violate("furthest-error-moved-backwards", "furthest-error-moved-backwards", d)
+		return
+	}
+	a.Count("probe events at which the furthest recorded error was checked to be monotone", int64(len(r.Log)))
 	switch {
 	case r.Budget != "":
 		a.Count("inconclusive:budget ("+r.Budget+")", 1)
